@@ -209,12 +209,16 @@ package app
 //@ ghost var fsNoRange bool
 //@ ghost var fsGzip bool
 //@ ghost var rgParsed bool
+// fsRel: the reader reference this request holds on the cached file has been given up (decremented directly, by the
+// failed NewReader, by closing the reader, or handed over with the reader to the response) - at most once: the count
+// going negative is a panic, and a count too low lets the cache cleaner close a file that is still being served.
+//@ ghost var fsRel int
 //@ func fsHandler.handleRequest(h, c, ctx)
 //@   props C08, C07
 //@   abstract
 //@   noinline
 //@   panics
-//@   modifies rgOK, rgStart, rgEnd, rgLen, rgApplied, fsNulFree, fsRewritten, fsDotDotFree, fsNoRange, fsGzip, rgParsed
+//@   modifies rgOK, rgStart, rgEnd, rgLen, rgApplied, fsNulFree, fsRewritten, fsDotDotFree, fsNoRange, fsGzip, rgParsed, fsRel
 //@   ghostset-at-entry rgOK = false
 //@   ghostset-at-entry rgApplied = false
 //@   ghostset-at-entry rgParsed = false
@@ -233,6 +237,14 @@ package app
 //@   assert @C08 before openFSFile: arg2 ==> fsNoRange && fsGzip
 //@   assert @C08 before maplookup: (fsNoRange && fsGzip) || arg0 == h.cache
 //@   assert @C08 before mapupdate: (fsNoRange && fsGzip) || arg0 == h.cache
+//@   ghostset-at-entry fsRel = 0
+//@   assert @C08 before decReadersCount!: fsRel == 0
+//@   ghostset after decReadersCount!: fsRel = 1
+//@   ghostset after fsFile.NewReader: fsRel = ite(result1 != nil, 1, fsRel)
+//@   assert @C08 before Close: fsRel == 0
+//@   ghostset after Close: fsRel = 1
+//@   assert @C08 before RequestContext.SetBodyStream: fsRel == 0
+//@   ghostset after RequestContext.SetBodyStream: fsRel = 1
 //@   ghostset after ParseByteRange: rgParsed = true
 //@   assert @C08 before RequestContext.AbortWithMsg: rgParsed && !rgOK ==> arg2 == 416
 //@   assert @C08 before RequestContext.SetStatusCode#1: (rgApplied ==> arg1 == 206) && (!rgApplied ==> arg1 == 200)
